@@ -10,7 +10,7 @@ import corr  # noqa
 import kickcommon as K  # noqa
 from lib import f32, f2h, h2f  # noqa
 
-MODULES = ["InovesaModel.Props.C08", "InovesaModel.Props.Whole", "InovesaModel.Props.TieKick", "InovesaModel.Props.TieWake"]
+MODULES = ["InovesaModel.Props.C08", "InovesaModel.Props.Whole", "InovesaModel.Props.TieKick", "InovesaModel.Props.TieWake", "InovesaModel.Props.TieFPApply"]
 LEVEL = "proof"
 
 
